@@ -18,4 +18,5 @@ func checkC02(p *Prog, r *Report) {
 	checkR02g(p, r)
 	checkEmptyGuards(p, r)
 	checkR02h(p, r)
+	checkR02i(p, r)
 }
